@@ -232,7 +232,10 @@ class ExprMixin:
             items = base.extra[1]
             if -len(items) <= key.const < len(items):
                 return items[key.const].add_deps(base.deps)
-        fancy = bool(key.tags & {"mask", "indexarr"})
+        # indexing with a mask, an index array or a python list of positions copies (numpy advanced indexing)
+        fancy = bool(key.tags & {"mask", "indexarr"}) or any(
+            self.obj(r).cls in ("list", "tuple") for r in key.refs if r in self.heap.objs) and not any(
+            self.obj(r).cls in ("dict",) for r in base.refs if r in self.heap.objs)
         # typing generics such as Optional[List] evaluate to nothing interesting
         if base.callee and not base.aliases():
             return Val(deps=base.deps | key.deps, callee=base.callee)
